@@ -533,8 +533,10 @@ func verifHarnessC13ConcurrentLookups() {
 	var err2 error
 	cache.duringWrite = func() { h2, err2 = s.LookupSecret(ctx, name2) }
 
+	raceBegin()
 	h1, err1 := s.LookupSecret(ctx, name1)
 	joinConcurrent()
+	raceEnd() // the two lookups touch no store memory without the store's lock
 
 	assert("both-lookups-succeed", and(err1 == nil, err2 == nil, h1 != nil, h2 != nil))
 	assert("both-installed", and(mapHas(s.active.m, name1), mapHas(s.active.m, name2)))
